@@ -2,6 +2,8 @@
 #![allow(unused, clippy::all)]
 #[cfg(kani)]
 pub mod c06;
+#[cfg(kani)]
+pub mod c10drv;
 /// concrete-playback tests are written here by `./check --replay` (committed empty)
 #[cfg(kani)]
 mod playback_gen;
